@@ -6,6 +6,9 @@ package main
 // evaluates each property directly on the implementation.
 
 import (
+	"github.com/influxdata/influxql"
+	"strings"
+	"runtime/debug"
 	"flag"
 	"fmt"
 	"os"
@@ -33,6 +36,12 @@ func main() {
 			*seed = v
 		}
 	}
+	if cmd == "stackprobe" { // child process of the C04 run: nested parentheses to the depth given; may die with a fatal error
+		n, _ := strconv.Atoi(fs.Arg(0))
+		_, err := influxql.ParseStatement("SELECT " + strings.Repeat("(", n) + "1" + strings.Repeat(")", n) + " FROM m")
+		fmt.Println("returned", err == nil)
+		return
+	}
 	if cmd == "tables" {
 		dumpTables(*dir)
 		return
@@ -46,7 +55,17 @@ func main() {
 		os.Exit(runReplay(cmd, *replay))
 	}
 	o := newOut(*dir)
-	fn(o, newRng(*seed), *tier == "thorough")
+	// a call into the implementation that is not individually guarded and panics: the run is cut short, which must show
+	// as a violation with the panic as its description, not as a crashed check
+	func() {
+		defer func() {
+			if pn := recover(); pn != nil {
+				o.checked()
+				o.fail("", fmt.Sprintf("the implementation panicked inside the %s run: %v\n%s", cmd, pn, debug.Stack()), map[string]interface{}{"op": "panic", "what": fmt.Sprint(pn)})
+			}
+		}()
+		fn(o, newRng(*seed), *tier == "thorough")
+	}()
 	o.finish()
 }
 
